@@ -184,7 +184,7 @@ def main(run):
                     run.nontriv((cfgd["explainer"], seed, t, k, site))
                 # resume the stream: (i) C01 identity (SAGE, exact); (ii) the trajectory must equal that of a twin that never
                 # saw the failed call (same storage content, same generator state): hidden estimate state untouched as well
-                if t > 0 and what == "incr":
+                if what == "incr":        # (also after a fault in the very first call: the stream must be resumable)
                     twin2 = copy.deepcopy(sc)
                     same_storage = twin2.storage is not None and \
                         [dict(r) for r in twin2.storage.get_data()[0]] == [dict(r) for r in b.storage.get_data()[0]]
